@@ -705,7 +705,7 @@ Section Spec.
   Qed.
 
   (* ---------------------------------------------------------------------------------- one step, cached vs. any world with the same contents *)
-  Definition in_class (o : op) : Prop := match o with Slice _ _ _ => False | _ => True end.
+  Definition in_class (o : op) : Prop := True.
 
   Lemma same_static_sym : forall a b, same_static a b -> same_static b a.
   Proof. intros a b (A & B & C). repeat split; congruence. Qed.
@@ -745,6 +745,160 @@ Section Spec.
     destruct (same_static_pure _ _ H) as [_ PD]. rewrite PD. reflexivity.
   Qed.
 
+  (* ---------------------------------------------------------------------------------- slices (views) *)
+  Definition add_obj (w : world) (o : obj) : world := set_objs w (objs w ++ [o]).
+
+  Lemma add_obj_inv : forall w o,
+    inv w -> ochild o = None -> oderived o = [] -> (obuf o < length (bufs w))%nat ->
+    (forall y, oother o = Some y -> (y < length (objs w))%nat) -> inv (add_obj w o).
+  Proof.
+    intros w o I HC HD HB HO. pose proof I as (R & P & L & [W1 W2] & O).
+    set (w1 := add_obj w o).
+    assert (AG : forall j, (j < length (objs w))%nat -> agree w w1 j).
+    { intros j Hj. unfold agree, get_obj, w1, add_obj. simpl. rewrite app_nth1; [|exact Hj]. split; reflexivity. }
+    split; [exact R|]. split; [exact P|]. split; [exact L|]. split.
+    - split.
+      + intros p o' E. unfold w1, add_obj in E. simpl in E. simpl. rewrite app_length. simpl.
+        destruct (lt_dec p (length (objs w))) as [Hp|Hp].
+        * rewrite nth_error_app1 in E; [|exact Hp]. destruct (W1 _ _ E) as [A B]. split; [exact A|].
+          intros y Hy. specialize (B y Hy). lia.
+        * rewrite nth_error_app2 in E; [|lia]. destruct (p - length (objs w))%nat as [|k] eqn:K; simpl in E.
+          -- inversion E; subst o'. split; [exact HB|]. intros y Hy. specialize (HO y Hy). lia.
+          -- destruct k; discriminate.
+      + intros s0 p E. simpl. rewrite app_length. simpl. specialize (W2 s0 p E). lia.
+    - intros p o' E. unfold w1, add_obj in E. simpl in E.
+      destruct (lt_dec p (length (objs w))) as [Hp|Hp].
+      + rewrite nth_error_app1 in E; [|exact Hp]. destruct (O _ _ E) as [V1 V2]. destruct (W1 _ _ E) as [_ WB].
+        pose proof (nth_error_nth_obj _ _ _ E) as G. split.
+        * intros c Hc. rewrite (p_child_agree w w1 p (AG p Hp)). auto.
+        * intros qt c Hc. rewrite (p_derived_agree w w1 p qt); auto.
+          -- unfold get_obj, w1, add_obj. simpl. rewrite app_nth1; [reflexivity|exact Hp].
+          -- intros y Hy. apply AG. apply WB. unfold get_obj in Hy. rewrite G in Hy. exact Hy.
+      + rewrite nth_error_app2 in E; [|lia]. destruct (p - length (objs w))%nat as [|k] eqn:K; simpl in E.
+        * inversion E; subst o'. split; intros; [rewrite HC in *; discriminate|rewrite HD in *; contradiction].
+        * destruct k; discriminate.
+  Qed.
+
+  Lemma add_obj_static : forall w w' o o',
+    same_static w w' -> o_clear o' = o_clear o -> same_static (add_obj w o) (add_obj w' o').
+  Proof.
+    intros w w' o o' (A & B & C) E. unfold add_obj. repeat split; simpl; auto. rewrite !map_app, B. simpl. rewrite E. reflexivity.
+  Qed.
+
+  Definition bind_slot (w : world) (s : Z) (id : nat) : world := set_slots w ((s, id) :: slots w).
+
+  Lemma bind_slot_inv : forall w s id, inv w -> (id < length (objs w))%nat -> inv (bind_slot w s id).
+  Proof.
+    intros w s id I H. pose proof I as (R & P & L & [W1 W2] & O).
+    split; [exact R|]. split; [exact P|]. split; [exact L|]. split; [|exact O]. split; [exact W1|].
+    intros s0 p E. unfold slot, bind_slot in E. simpl in E. simpl.
+    destruct (s0 =? s); [inversion E; subst; exact H|apply (W2 s0 p E)].
+  Qed.
+
+  Lemma bind_slot_static : forall w w' s id, same_static w w' -> same_static (bind_slot w s id) (bind_slot w' s id).
+  Proof. intros w w' s id (A & B & C). unfold bind_slot. repeat split; simpl; auto. rewrite C. reflexivity. Qed.
+
+  Lemma is_whole_2d_static : forall w w' j, same_static w w' ->
+    is_whole_2d w' (get_obj w' j) = is_whole_2d w (get_obj w j).
+  Proof.
+    intros w w' j H. unfold is_whole_2d. destruct (same_static_fields w w' j H) as (A & _ & C & _).
+    rewrite A, C, (contents_static w w' j H). reflexivity.
+  Qed.
+
+  Lemma clear_obj_inv : forall w p, inv w -> inv (upd_obj w p o_clear) /\ same_static w (upd_obj w p o_clear).
+  Proof.
+    intros w p I. apply inv_upd_obj; auto. intros o _ _. apply o_clear_valid.
+  Qed.
+
+  Lemma get_obj_wf : forall w p, inv w -> (p < length (objs w))%nat ->
+    (obuf (get_obj w p) < length (bufs w))%nat.
+  Proof.
+    intros w p I Hp. destruct I as (_ & _ & _ & [W1 _] & _).
+    destruct (nth_error (objs w) p) as [o|] eqn:E; [|apply nth_error_None in E; lia].
+    unfold get_obj. rewrite (nth_error_nth_obj _ _ _ E). apply (W1 _ _ E).
+  Qed.
+
+  Lemma get_obj_other_wf : forall w p y, inv w -> oother (get_obj w p) = Some y -> (y < length (objs w))%nat.
+  Proof.
+    intros w p y I H. destruct (get_obj_cases w p) as [E|E]; [|rewrite E in H; discriminate].
+    destruct I as (_ & _ & _ & [W1 _] & _). apply (proj2 (W1 _ _ E)). exact H.
+  Qed.
+
+  (* the result of do_slice, written with add_obj / bind_slot *)
+  Definition slice_none (w : world) (p : nat) (kind s' : Z) : world :=
+    let o := get_obj w p in
+    bind_slot (add_obj w (mkObj (okind o) (obuf o) kind None None [] false)) s' (length (objs w)).
+
+  Definition slice_some (w : world) (p y : nat) (kind s' : Z) : world :=
+    let o := get_obj w p in
+    let oy := get_obj w y in
+    let w1 := upd_obj w p o_clear in
+    let w2 := add_obj w1 (mkObj (okind oy) (obuf oy) kind None None [] false) in
+    bind_slot (add_obj w2 (mkObj (okind o) (obuf o) kind (Some (length (objs w1))) None [] false)) s' (length (objs w2)).
+
+  Lemma do_slice_cases : forall w p kind s',
+    do_slice w p kind s' =
+    if negb (is_whole_2d w (get_obj w p)) then (w, invalid_obs)
+    else match oother (get_obj w p) with
+         | None => (slice_none w p kind s', ok_obs)
+         | Some y => if negb (is_whole_2d w (get_obj w y)) then (w, invalid_obs)
+                     else match oother (get_obj w y) with
+                          | Some _ => (w, invalid_obs)
+                          | None => (slice_some w p y kind s', ok_obs)
+                          end
+         end.
+  Proof. intros. reflexivity. Qed.
+
+  Lemma slice_none_inv : forall w p kind s', inv w -> (p < length (objs w))%nat -> inv (slice_none w p kind s').
+  Proof.
+    intros w p kind s' I Hp. unfold slice_none. apply bind_slot_inv.
+    - apply add_obj_inv; auto; simpl; [apply get_obj_wf; auto|intros; discriminate].
+    - unfold add_obj. simpl. rewrite app_length. simpl. lia.
+  Qed.
+
+  Lemma slice_some_inv : forall w p y kind s',
+    inv w -> (p < length (objs w))%nat -> (y < length (objs w))%nat -> inv (slice_some w p y kind s').
+  Proof.
+    intros w p y kind s' I Hp Hy. unfold slice_some.
+    destruct (clear_obj_inv w p I) as [I1 S1].
+    pose proof (same_static_len _ _ S1) as L1.
+    assert (B1 : bufs (upd_obj w p o_clear) = bufs w) by reflexivity.
+    apply bind_slot_inv.
+    - apply add_obj_inv.
+      + apply add_obj_inv; auto; simpl; [|intros; discriminate].
+        change (bufs (upd_obj w p o_clear)) with (bufs w). apply get_obj_wf; auto.
+      + reflexivity.
+      + reflexivity.
+      + simpl. apply get_obj_wf; auto.
+      + simpl. intros y0 E. inversion E; subst. rewrite app_length. simpl. lia.
+    - unfold add_obj. simpl. rewrite !app_length. simpl. lia.
+  Qed.
+
+  Lemma slice_none_static : forall w w' p kind s', same_static w w' ->
+    same_static (slice_none w p kind s') (slice_none w' p kind s').
+  Proof.
+    intros w w' p kind s' H. unfold slice_none. rewrite (same_static_len _ _ H).
+    apply bind_slot_static. apply add_obj_static; [exact H|].
+    destruct (same_static_fields w w' p H) as (A & B & _). rewrite A, B. reflexivity.
+  Qed.
+
+  Lemma slice_some_static : forall w w' p y kind s', same_static w w' ->
+    same_static (slice_some w p y kind s') (slice_some w' p y kind s').
+  Proof.
+    intros w w' p y kind s' H. unfold slice_some.
+    assert (H1 : same_static (upd_obj w p o_clear) (upd_obj w' p o_clear)).
+    { apply (same_static_trans _ w).
+      - apply same_static_sym. apply upd_obj_static. intros; reflexivity.
+      - apply (same_static_trans _ w'); [exact H|]. apply upd_obj_static. intros; reflexivity. }
+    pose proof (same_static_len _ _ H1) as L1.
+    destruct (same_static_fields w w' p H) as (A & B & _). destruct (same_static_fields w w' y H) as (Ay & By & _).
+    assert (H2 : same_static (add_obj (upd_obj w p o_clear) (mkObj (okind (get_obj w y)) (obuf (get_obj w y)) kind None None [] false))
+                             (add_obj (upd_obj w' p o_clear) (mkObj (okind (get_obj w' y)) (obuf (get_obj w' y)) kind None None [] false))).
+    { apply add_obj_static; [exact H1|]. rewrite Ay, By. reflexivity. }
+    rewrite (same_static_len _ _ H2). apply bind_slot_static. apply add_obj_static; [exact H2|].
+    rewrite A, B, L1. reflexivity.
+  Qed.
+
   Lemma step_sim : forall o w w' w1 x w1' x',
     in_class o -> inv w -> inv w' -> same_static w w' ->
     step pf Q w o = (w1, x) -> step pf Q w' o = (w1', x') ->
@@ -752,7 +906,7 @@ Section Spec.
   Proof.
     intros o w w' w1 x w1' x' C I I' SS H H'.
     assert (FK : forall j, okind (get_obj w' j) = okind (get_obj w j)) by (intros; apply (same_static_fields w w' j SS)).
-    destruct o; simpl in C; try contradiction; unfold step, with_slot in H, H'.
+    destruct o; unfold step, with_slot in H, H'.
     - (* NewArr *) inversion H; inversion H'; subst. split; [reflexivity|]. split; [apply new_obj_static; exact SS|].
       split; apply new_obj_inv; assumption.
     - (* NewPos *) inversion H; inversion H'; subst. split; [reflexivity|]. split; [apply new_obj_static; exact SS|].
@@ -816,6 +970,24 @@ Section Spec.
         inversion H; inversion H'; subst. split; [reflexivity|].
         split; [|split; apply setother_inv; auto; intros y0 E0; discriminate].
         destruct SS as (A & B & D). repeat split; simpl; auto. rewrite !map_clear_upd, B. reflexivity.
+    - (* Slice *) rewrite (slot_static w w' s SS) in H'. destruct (slot w s) as [p|] eqn:SP;
+        [|inversion H; inversion H'; subst; auto].
+      assert (LP : (p < length (objs w))%nat) by (destruct I as (_ & _ & _ & [_ W2] & _); apply (W2 s p SP)).
+      assert (LP' : (p < length (objs w'))%nat) by (rewrite (same_static_len _ _ SS); exact LP).
+      rewrite do_slice_cases in H, H'. rewrite (is_whole_2d_static w w' p SS) in H'.
+      destruct (negb (is_whole_2d w (get_obj w p))); [inversion H; inversion H'; subst; auto|].
+      destruct (same_static_fields w w' p SS) as (_ & _ & _ & F4 & _). rewrite F4 in H'.
+      destruct (oother (get_obj w p)) as [y|] eqn:OY.
+      + rewrite (is_whole_2d_static w w' y SS) in H'.
+        destruct (negb (is_whole_2d w (get_obj w y))); [inversion H; inversion H'; subst; auto|].
+        destruct (same_static_fields w w' y SS) as (_ & _ & _ & F4y & _). rewrite F4y in H'.
+        destruct (oother (get_obj w y)); [inversion H; inversion H'; subst; auto|].
+        inversion H; inversion H'; subst. split; [reflexivity|].
+        assert (LY : (y < length (objs w))%nat) by (apply (get_obj_other_wf w p y I OY)).
+        assert (LY' : (y < length (objs w'))%nat) by (rewrite (same_static_len _ _ SS); exact LY).
+        split; [apply slice_some_static; exact SS|]. split; apply slice_some_inv; auto.
+      + inversion H; inversion H'; subst. split; [reflexivity|].
+        split; [apply slice_none_static; exact SS|]. split; apply slice_none_inv; auto.
     - (* Flood *) inversion H; inversion H'; subst. split; [reflexivity|].
       pose proof I as (R & P & L & W & O). pose proof I' as (R' & P' & L' & W' & O').
       split; [destruct SS as (A & B & D); repeat split; simpl; auto|].
@@ -843,12 +1015,8 @@ Section Spec.
   Qed.
 
   (* ---------------------------------------------------------------------------------- consequences *)
-  Definition no_slice (ops : list op) : Prop := forall s k s', ~ In (Slice s k s') ops.
-
-  Lemma no_slice_class : forall ops, no_slice ops -> Forall in_class ops.
-  Proof.
-    intros ops H. apply Forall_forall. intros o Ho. destruct o; simpl; auto. apply (H s kind s' Ho).
-  Qed.
+  Lemma all_class : forall ops : list op, Forall in_class ops.
+  Proof. intros. apply Forall_forall. intros. exact I. Qed.
 
   Lemma run_inv : forall ops w, Forall in_class ops -> inv w -> inv (snd (run pf Q w ops)).
   Proof.
@@ -858,16 +1026,16 @@ Section Spec.
     specialize (IH w1 H2 I1). destruct (run pf Q w1 r) as [xs w2]. exact IH.
   Qed.
 
-  Lemma cache_invisible_lemma : forall ops, no_slice ops ->
+  Lemma cache_invisible_lemma : forall ops,
     fst (run pf Q empty_world ops) = fst (run_uncached pf Q empty_world ops).
   Proof.
-    intros ops H. apply run_sim; [apply no_slice_class; exact H|apply inv_empty|apply inv_empty|apply same_static_refl].
+    intros ops. apply run_sim; [apply all_class|apply inv_empty|apply inv_empty|apply same_static_refl].
   Qed.
 
-  Definition reachable (w : world) : Prop := exists ops, no_slice ops /\ w = snd (run pf Q empty_world ops).
+  Definition reachable (w : world) : Prop := exists ops, w = snd (run pf Q empty_world ops).
 
   Lemma reachable_inv : forall w, reachable w -> inv w.
-  Proof. intros w (ops & N & ->). apply run_inv; [apply no_slice_class; exact N|apply inv_empty]. Qed.
+  Proof. intros w (ops & ->). apply run_inv; [apply all_class|apply inv_empty]. Qed.
 
   (* item assignment, then conversion: the conversion of the *new* contents, whatever was memoised before *)
   Lemma setitem_lemma : forall w s p v w1 x1 w2 x2,
@@ -934,5 +1102,34 @@ Section Spec.
       (apply do_raw_ok in H; [|exact I|intro E; inversion E]); destruct H as (X & (A & B & _) & _);
       (split; [exact A|split; [exact B|]]); intros a c E; subst x; unfold p_raw_obs in E;
       match type of E with match ?t with _ => _ end = _ => destruct t end; inversion E; auto.
+  Qed.
+
+  (* item assignment through ANY object (the base, a slice of it, another slice), then a conversion of ANY
+     position: the conversion of what that position shows now.  With obuf p = obuf x this is "a write through a
+     view is seen by its base and vice versa". *)
+  Lemma view_write_lemma : forall w s t p x v w1 x1 w2 x2,
+    reachable w -> slot w s = Some p -> slot w t = Some x ->
+    1 <= okind (get_obj w p) -> 1 <= okind (get_obj w x) ->
+    step pf Q w (SetRow t v) = (w1, x1) -> step pf Q w1 (Conv s) = (w2, x2) ->
+    bufs w1 = upd_nth (obuf (get_obj w x)) (write_row0 v) (bufs w)
+    /\ obuf (get_obj w1 p) = obuf (get_obj w p) /\ oview (get_obj w1 p) = oview (get_obj w p)
+    /\ x2 = match pf (convfn (okind (get_obj w p))) 0 [(false, contents w1 (get_obj w1 p))] with
+            | None => None | Some a => Some (a, 0) end.
+  Proof.
+    intros w s t p x v w1 x1 w2 x2 R SL TL K KX H1 H2. pose proof (reachable_inv w R) as I.
+    unfold step, with_slot in H1. rewrite TL in H1. unfold do_setrow in H1.
+    assert (K0 : (okind (get_obj w x) =? 0) = false) by (apply Z.eqb_neq; lia).
+    rewrite K0 in H1. simpl in H1. inversion H1; subst w1 x1. clear H1.
+    pose proof (setrow_inv w x v I) as I1. simpl in I1.
+    split; [reflexivity|].
+    unfold step, with_slot in H2. unfold slot in H2, SL. simpl in H2. rewrite SL in H2.
+    match type of H2 with (if 1 <=? okind (get_obj ?W p) then _ else _) = _ => set (w1 := W) in * end.
+    assert (FF : okind (get_obj w1 p) = okind (get_obj w p) /\ obuf (get_obj w1 p) = obuf (get_obj w p)
+                 /\ oview (get_obj w1 p) = oview (get_obj w p)).
+    { unfold w1, get_obj. simpl. fold (get_obj (cleared_world w x) p).
+      destruct (same_static_fields w (cleared_world w x) p (cleared_static w x)) as (A & B & C & _). auto. }
+    destruct FF as (KK & BB & VV). split; [exact BB|]. split; [exact VV|].
+    rewrite KK in H2. replace (1 <=? okind (get_obj w p)) with true in H2 by (symmetry; apply Z.leb_le; exact K).
+    apply do_conv_ok in H2; [|exact I1]. destruct H2 as (X & _ & _). rewrite X. unfold p_conv_obs, p_child. rewrite KK. reflexivity.
   Qed.
 End Spec.
